@@ -110,6 +110,8 @@ struct RespCase {
     accept: Option<&'static str>,
     free: bool,
     drip: bool,
+    /// the request itself is grpc-web-text (the response form must still follow Accept)
+    req_text: bool,
 }
 
 fn resp_body(c: &RespCase, ch: &Chooser) -> Outcome {
@@ -119,11 +121,12 @@ fn resp_body(c: &RespCase, ch: &Chooser) -> Outcome {
     let stats = Arc::new(Mutex::new(None));
     let inner = Inner { seen: seen.clone(), resp_headers: grpc_headers(), resp_body: body.clone(), resp_trailers: Some(to_map(&c.trailers)), chunking, ch: ch.clone(), stats: stats.clone() };
     let mut svc = GrpcWebLayer::new().layer(inner);
-    let mut b = http::Request::builder().method("POST").uri("/fx.Echo/Unary").version(http::Version::HTTP_11).header("content-type", "application/grpc-web+proto");
+    let mut b = http::Request::builder().method("POST").uri("/fx.Echo/Unary").version(http::Version::HTTP_11).header("content-type", if c.req_text { "application/grpc-web-text" } else { "application/grpc-web+proto" });
     if let Some(a) = c.accept {
         b = b.header("accept", a);
     }
-    let req = b.body(ScriptBody::new(wire::encode_frame(0, &[1]), None, Chunking::Fixed(vec![]), ch)).unwrap();
+    let req_bytes = if c.req_text { b64::encode(&wire::encode_frame(0, &[1]), true).into_bytes() } else { wire::encode_frame(0, &[1]) };
+    let req = b.body(ScriptBody::new(req_bytes, None, Chunking::Fixed(vec![]), ch)).unwrap();
     let resp = match spin_block_on(svc.call(req), 10_000) {
         Ok(Ok(r)) => r,
         _ => {
@@ -230,8 +233,9 @@ fn resp_cases(tier: Tier) -> Vec<RespCase> {
                 if tier == Tier::Quick && ti > 0 && (ai + ti) % 3 != 0 {
                     continue;
                 }
-                out.push(RespCase { frames: frames.clone(), trailers: tr.clone(), accept: *accept, free: len <= free_limit && len > 0, drip: false });
-                out.push(RespCase { frames: frames.clone(), trailers: tr.clone(), accept: *accept, free: false, drip: true });
+                out.push(RespCase { frames: frames.clone(), trailers: tr.clone(), accept: *accept, free: len <= free_limit && len > 0, drip: false, req_text: false });
+                out.push(RespCase { frames: frames.clone(), trailers: tr.clone(), accept: *accept, free: false, drip: false, req_text: true });
+                out.push(RespCase { frames: frames.clone(), trailers: tr.clone(), accept: *accept, free: false, drip: true, req_text: false });
             }
         }
     }
@@ -403,9 +407,9 @@ pub fn property(tier: Tier) -> Property {
     let resp = Section::new(
         "responses",
         Config { max_bound: tier.q(2, 3), ..Default::default() },
-        "cases: inner gRPC response = 0..2 message frames (payloads 0/1/3/5 bytes, flags 0/1) + a trailer map from a menu (status only, message with ': ' and spaces, repeated key, binary value, 5 entries) x Accept in {grpc-web, +proto, -text, -text+proto, absent, */*}; environment: the inner body is delivered under every chunking (all compositions for bodies <= 14/18 bytes, else <= bound cuts/Pending/empty-frame deviations) plus drip; oracle: independent grpc-web(-text) decoder recovers the identical message frames followed by exactly one 0x80 frame whose header block equals the trailers as a multimap; content-type family follows Accept; no HTTP trailers leak. Non-trivial = inner body delivered in more than one chunk.",
+        "cases: inner gRPC response = 0..2 message frames (payloads 0/1/3/5 bytes, flags 0/1) + a trailer map from a menu (status only, message with ': ' and spaces, repeated key, binary value, 5 entries) x Accept in {grpc-web, +proto, -text, -text+proto, absent, */*} x request content-type {binary, text}; environment: the inner body is delivered under every chunking (all compositions for bodies <= 14/18 bytes, else <= bound cuts/Pending/empty-frame deviations) plus drip; oracle: independent grpc-web(-text) decoder recovers the identical message frames followed by exactly one 0x80 frame whose header block equals the trailers as a multimap; content-type family follows Accept; no HTTP trailers leak. Non-trivial = inner body delivered in more than one chunk.",
         resp_cases(tier),
-        |c: &RespCase| format!("frames={:?} trailers={:?} accept={:?} free={} drip={}", c.frames, show(&c.trailers), c.accept, c.free, c.drip),
+        |c: &RespCase| format!("frames={:?} trailers={:?} accept={:?} free={} drip={} req_text={}", c.frames, show(&c.trailers), c.accept, c.free, c.drip, c.req_text),
         resp_body,
     )
     .mins(1000, 10, 100);
